@@ -258,6 +258,56 @@ fn second_generation(e: &'static Engine, workers: usize, first: u8) {
     e.note("ok");
 }
 
+/// two spawners hand coroutines to the same worker's global queue; the first one is held (breakpoint) between claiming its
+/// slot and writing it while the second one completes its hand-off and the worker drains the queue; then the first one is
+/// let go. Both coroutines run exactly once and both joins return.
+fn two_spawners_gap(e: &'static Engine, extra_before: usize) {
+    rt_init_opts(1, 2, 0x4000, 3_600_000_000_000);
+    for _ in 0..extra_before {
+        go!(|| 1).join().unwrap();
+    }
+    e.begin();
+    let slot: Arc<std::sync::Mutex<Option<coroutine::JoinHandle<u32>>>> = Arc::new(std::sync::Mutex::new(None));
+    let bp = e.break_at("mpsc.push.claimed");
+    let s2 = slot.clone();
+    let p1 = e.spawn("spawner", move || {
+        let h = go!(|| {
+            RUNS[0].fetch_add(1, Ordering::SeqCst);
+            coroutine::yield_now();
+            DONE[0].store(true, Ordering::SeqCst);
+            100u32
+        });
+        *s2.lock().unwrap() = Some(h);
+    });
+    e.wait_hit(bp);
+    let hb = go!(|| {
+        RUNS[1].fetch_add(1, Ordering::SeqCst);
+        coroutine::yield_now();
+        DONE[1].store(true, Ordering::SeqCst);
+        101u32
+    });
+    // the worker has seen the second hand-off and has done with it whatever it could
+    e.quiesce();
+    e.release(bp);
+    e.join(p1);
+    let ha = slot.lock().unwrap().take().unwrap();
+    for (i, h) in [ha, hb].into_iter().enumerate() {
+        match h.join() {
+            Ok(v) if v == 100 + i as u32 && DONE[i].load(Ordering::SeqCst) => {}
+            Ok(v) => e.fail("join_value", &format!("join() of coroutine {} returned Ok({})", i, v)),
+            Err(_) => e.fail("join_value", &format!("coroutine {} did not return its value", i)),
+        }
+    }
+    e.quiesce();
+    for i in 0..2 {
+        let r = RUNS[i].load(Ordering::SeqCst);
+        if r != 1 {
+            e.fail("runs_exactly_once", &format!("closure of coroutine {} ran {} times", i, r));
+        }
+    }
+    e.note("ok");
+}
+
 use Act::*;
 use MainAct::*;
 use Site::*;
@@ -296,6 +346,9 @@ pub fn build(quick: bool) -> Vec<Scenario> {
         let d = if quick { 2 } else if three { 2 } else { 3 };
         let s = Scenario::new("C01", "spawn_join", p.name, Arc::new(move |e| run(e, p, 3_600_000_000_000))).bound(d);
         v.push(if quick { s.deepen(4, 2500) } else if d == 3 { s.shards(4).deepen(4, 40_000) } else { s.deepen(3, 150_000) });
+    }
+    for extra in [0usize, 61] {
+        v.push(Scenario::new("C01", "two_spawners_gap", format!("two_spawners.first_held_between_claim_and_write.off{}", extra), Arc::new(move |e| two_spawners_gap(e, extra))).tier(quick));
     }
     for w in [1usize, 2] {
         for (first, name) in [(0u8, "cancelled"), (1, "panicked"), (2, "timed_out")] {
